@@ -20,6 +20,41 @@ NO_SEG = SegmentationControl.NO_RECORD_BOUNDARIES_PRESERVATION
 
 
 # ------------------------------------------------------------------------------------------------ Finished
+@obligation(["C11", "C06", "C04"], "FinishedPdu/params-without-response-list",
+            verifies=[FIN + "FinishedPdu.__init__", FIN + "FinishedPdu.pack", FIN + "FinishedPdu._calculate_directive_field_len",
+                      FIN + "FinishedPdu.__eq__", FIN + "FinishedPdu.unpack"])
+def finished_without_response_list(mode: EnumOf(TransmissionMode), crc: EnumOf(CrcFlag), large: EnumOf(LargeFileFlag),
+                                   we: Choice(1, 8), ws: Choice(2, 4), src: Int, seq: Int, dst: Int,
+                                   cc: EnumOf(ConditionCode), dc: EnumOf(DeliveryCode), fs: EnumOf(FileStatus),
+                                   fw: Choice(None, 1, 4), fv: Int):
+    """`file_store_responses=None` (accepted by constructor and setter alike) means no filestore responses: same octets and lengths
+    as with an empty list, decodes to an equal PDU, and the caller's parameter object still holds None afterwards"""
+    requires(ids_in_range(we, ws, src, seq, dst))
+    requires(cc >= 0)
+    if fw is not None:
+        requires(both(0 <= fv, fv < pow256w(fw)))
+    conf = mk_conf(we, ws, src, seq, dst, mode, crc, large, Direction.TOWARDS_SENDER, NO_SEG)
+    loc = EntityIdTlv(be(fw, fv)) if fw is not None else None
+    caller_params = FinishedParams(cc, dc, fs, None, loc)
+    caller_snap = snapshot(caller_params)
+    pdu = FinishedPdu(conf, caller_params)
+    twin = FinishedPdu(conf, FinishedParams(cc, dc, fs, [], EntityIdTlv(be(fw, fv)) if fw is not None else None))
+    raw = pdu.pack()
+    ensures("same-octets-as-empty-list", raw == twin.pack())
+    ensures("packet_len", pdu.packet_len == len(raw))
+    ensures("data-field-len", both(pdu.pdu_header.pdu_data_field_len == len(raw) - (4 + 2 * we + ws),
+                                   from_be(raw[1:3]) == len(raw) - (4 + 2 * we + ws)))
+    ensures("equal-to-empty-list-twin", both(pdu == twin, twin == pdu))
+    ensures("caller-params-untouched", same_state(caller_params, caller_snap))
+    o = outcome(FinishedPdu.unpack, raw)
+    ensures("own-octets-accepted", o.ok)
+    if o.ok:
+        ensures("decoded-repacks", both(o.value.pack() == raw, o.value.packet_len == len(raw)))
+        dropped = both(fw is not None, either(cc == ConditionCode.NO_ERROR, cc == ConditionCode.UNSUPPORTED_CHECKSUM_TYPE))
+        if not dropped:      # (a fault location given with a code that omits it is not in the octets, hence not in the decoded PDU)
+            ensures("decoded-equal", both(o.value == pdu, pdu == o.value))
+
+
 @obligation(["C11", "C06"], "FinishedPdu/fault-location-with-omitting-codes",
             verifies=[FIN + "FinishedPdu.__init__", FIN + "FinishedPdu.pack", FIN + "FinishedPdu._calculate_directive_field_len",
                       FIN + "FinishedPdu.fault_location", FIN + "FinishedPdu.condition_code"])
